@@ -1,11 +1,8 @@
-From Bexpr Require Import Base Strconv Ast Unicode Peg Typing Actions GoGrammar Univ Eval Api Dump.
+(* Extraction of the model entry points for the volume path of the correspondence checks.
+   Only ExtrOcamlBasic is used: Z, N, positive, nat, ascii and string stay as extracted inductives.
+   Compiled from build/ocaml (the .ml files are written to the current directory). *)
+From Bexpr Require Import Base Strconv Ast Unicode Peg Typing Actions GoGrammar PegGrammar Univ Eval Api Dump Quote ModelApi.
 Require Import ExtrOcamlBasic.
 From Coq Require Import List String ZArith.
-Import ListNotations.
-
-Definition big_fuel : nat := 200000.
-Definition model_parse (mx : option N) (s : string) := parse go_grammar mx action_sem pred_sem big_fuel s.
-Definition model_eval (re : string -> string -> option bool) (tag : string) (unk : option iface) (e : expr) (d : iface) : outcome :=
-  eval re {| tagname := tag; hook := None; unknown := unk |} [] e d.
-Cd "ml".
-Extraction "model.ml" model_parse model_eval z2b b2z.
+Extraction "model.ml" model_parse model_parse_peg model_eval model_create model_evaluate model_execute model_dump
+  go_quote unquote parse_int parse_uint parse_float parse_bool ptr_unescape utf8_cells valid_utf8 selector_string z2b b2z Z.abs Z.div_eucl Z.add Z.mul Z.opp.
